@@ -109,8 +109,8 @@ Proof.
 Qed.
 
 (* ---------- ReceptorVerifyFunc ---------- *)
-Definition x509_ok (c : config) (r : role) (f : facts) : Prop :=
-  chain_ok r f = true /\ f_time_ok f = true /\ eku_ok r f = true /\
+Definition x509_ok (c : config) (r : role) (f : facts) (now : N) : Prop :=
+  chain_ok r f = true /\ time_ok f now = true /\ eku_ok r f = true /\
   (c_htype c = HOST_DNS -> c_expected c <> [] -> f_dns f (c_expected c) = true).
 
 Definition name_ok (c : config) (f : facts) : Prop :=
@@ -126,8 +126,8 @@ Qed.
 Lemma isnil_false_iff (b : bytes) : isnil b = false <-> b <> [].
 Proof. destruct b; cbn; split; congruence. Qed.
 
-Lemma x509_verify_iff c r f :
-  x509_verify r (dns_name_of c) f = true <-> x509_ok c r f.
+Lemma x509_verify_iff c r f now :
+  x509_verify r (dns_name_of c) f now = true <-> x509_ok c r f now.
 Proof.
   unfold x509_verify, x509_ok, dns_ok, dns_name_of. rewrite !andb_true_iff.
   destruct (c_htype c =? HOST_DNS) eqn:H; cbn [andb].
@@ -150,10 +150,10 @@ Proof.
   - apply N.eqb_neq in H. split; [intros _ ?; contradiction|reflexivity].
 Qed.
 
-Theorem verify_ok_iff_proof c f :
-  verify c f = Accept <->
+Theorem verify_ok_iff_proof c f now :
+  verify c f now = Accept <->
   f_present f = true /\ f_parses f = true /\ pins_ok (c_pins c) f /\
-  (exists r, role_of (c_vtype c) = Some r /\ x509_ok c r f) /\ name_ok c f.
+  (exists r, role_of (c_vtype c) = Some r /\ x509_ok c r f now) /\ name_ok c f.
 Proof.
   unfold verify.
   destruct (f_present f); cbn [negb]; [|split; [discriminate|intros [? _]; discriminate]].
@@ -162,8 +162,8 @@ Proof.
     [|split; [discriminate|intros (_ & _ & _ & [r [? _]] & _); discriminate]].
   pose proof (pins_step_accept (c_pins c) f) as HP.
   destruct (pins_step (c_pins c) f) as [|w].
-  - pose proof (x509_verify_iff c r f) as HX.
-    destruct (x509_verify r (dns_name_of c) f); cbn [negb].
+  - pose proof (x509_verify_iff c r f now) as HX.
+    destruct (x509_verify r (dns_name_of c) f now); cbn [negb].
     + rewrite names_step_iff. split.
       * intro Hn. repeat split; try tauto. exists r. tauto.
       * tauto.
@@ -172,22 +172,22 @@ Proof.
   - split; [discriminate|]. intros (_ & _ & Hp & _). apply HP in Hp. discriminate.
 Qed.
 
-Corollary verify_refuses_or_accepts c f : verify c f = Accept \/ exists w, verify c f = Refuse w.
-Proof. destruct (verify c f); eauto. Qed.
+Corollary verify_refuses_or_accepts c f now : verify c f now = Accept \/ exists w, verify c f now = Refuse w.
+Proof. destruct (verify c f now); eauto. Qed.
 
 (* each condition's failure, alone, refuses *)
-Theorem single_failure_refuses_proof c f :
-  (f_present f = false -> verify c f <> Accept) /\
-  (f_parses f = false -> verify c f <> Accept) /\
-  (role_of (c_vtype c) = None -> verify c f <> Accept) /\
-  ((exists p, In p (c_pins c) /\ legal_len (blen p) = false) -> verify c f <> Accept) /\
-  (c_pins c <> [] -> (forall p, In p (c_pins c) -> pin_matches f p = false) -> verify c f <> Accept) /\
-  (forall r, role_of (c_vtype c) = Some r -> chain_ok r f = false -> verify c f <> Accept) /\
-  (f_time_ok f = false -> verify c f <> Accept) /\
-  (forall r, role_of (c_vtype c) = Some r -> eku_ok r f = false -> verify c f <> Accept) /\
-  (c_htype c = HOST_DNS -> c_expected c <> [] -> f_dns f (c_expected c) = false -> verify c f <> Accept) /\
+Theorem single_failure_refuses_proof c f now :
+  (f_present f = false -> verify c f now <> Accept) /\
+  (f_parses f = false -> verify c f now <> Accept) /\
+  (role_of (c_vtype c) = None -> verify c f now <> Accept) /\
+  ((exists p, In p (c_pins c) /\ legal_len (blen p) = false) -> verify c f now <> Accept) /\
+  (c_pins c <> [] -> (forall p, In p (c_pins c) -> pin_matches f p = false) -> verify c f now <> Accept) /\
+  (forall r, role_of (c_vtype c) = Some r -> chain_ok r f = false -> verify c f now <> Accept) /\
+  (time_ok f now = false -> verify c f now <> Accept) /\
+  (forall r, role_of (c_vtype c) = Some r -> eku_ok r f = false -> verify c f now <> Accept) /\
+  (c_htype c = HOST_DNS -> c_expected c <> [] -> f_dns f (c_expected c) = false -> verify c f now <> Accept) /\
   (c_htype c = HOST_RECEPTOR -> (forall names, f_names f = Ok names -> ~ In (c_expected c) names) ->
-   verify c f <> Accept).
+   verify c f now <> Accept).
 Proof.
   repeat split; intros;
     (intro Hv; apply verify_ok_iff_proof in Hv;
@@ -207,15 +207,44 @@ Proof.
 Qed.
 
 (* the refusal class follows the order of the Go function *)
-Lemma verify_class_nocert c f : f_present f = false -> verify c f = Refuse R_NOCERT.
+Lemma verify_class_nocert c f now : f_present f = false -> verify c f now = Refuse R_NOCERT.
 Proof. intro H. unfold verify. now rewrite H. Qed.
 
-Lemma verify_class_pinlen c f r :
+Lemma verify_class_pinlen c f r now :
   f_present f = true -> f_parses f = true -> role_of (c_vtype c) = Some r ->
-  (exists p, In p (c_pins c) /\ legal_len (blen p) = false) -> verify c f = Refuse R_PINLEN.
+  (exists p, In p (c_pins c) /\ legal_len (blen p) = false) -> verify c f now = Refuse R_PINLEN.
 Proof.
   intros Hp Hq Hr He. unfold verify. rewrite Hp, Hq, Hr. cbn [negb].
   apply (pins_step_pinlen _ f) in He. now rewrite He.
+Qed.
+
+(* ---------- the time of the call ---------- *)
+(* outside the validity window the verifier refuses whatever else holds ... *)
+Theorem verify_outside_window_refuses c f now :
+  now < f_not_before f \/ f_not_after f < now -> verify c f now <> Accept.
+Proof.
+  intros H Hv. apply verify_ok_iff_proof in Hv.
+  destruct Hv as (_ & _ & _ & [r [_ (_ & Ht & _)]] & _).
+  unfold time_ok in Ht. lia.
+Qed.
+
+(* ... and the verdict depends on the time of the call only through "inside the window or not":
+   nothing else about the moment the verifier (or the TLS config) was built or called matters *)
+Theorem verify_time_only_through_window c f now1 now2 :
+  time_ok f now1 = time_ok f now2 -> verify c f now1 = verify c f now2.
+Proof. intro H. unfold verify, x509_verify. now rewrite H. Qed.
+
+(* the same verifier, the same certificate, two calls: accepted inside the window, refused once the
+   window has passed (expiry), and refused before it opens, accepted after (not yet valid) *)
+Theorem verify_follows_the_clock c f t1 t2 :
+  verify c f t1 = Accept -> f_not_after f < t2 -> verify c f t2 = Refuse R_X509.
+Proof.
+  intros Hv Ht. pose proof Hv as Hi. apply verify_ok_iff_proof in Hi.
+  destruct Hi as (Hp & Hq & Hpins & [r [Hr (Hc & Hw & He & Hd)]] & _).
+  unfold verify in *. rewrite Hp, Hq, Hr in *. cbn [negb] in *.
+  apply pins_step_accept in Hpins. rewrite Hpins.
+  unfold x509_verify, time_ok. destruct (t2 <=? f_not_after f) eqn:E; [lia|].
+  repeat (rewrite andb_false_r || rewrite andb_false_l). reflexivity.
 Qed.
 
 (* ---------- non-vacuity: a good certificate, and each condition broken alone ---------- *)
@@ -224,19 +253,20 @@ Definition ex_d256 : bytes := repeat 2 32.
 Definition ex_d384 : bytes := repeat 3 48.
 Definition ex_d512 : bytes := repeat 4 64.
 Definition ex_facts : facts :=
-  mkFacts true true ex_d224 ex_d256 ex_d384 ex_d512 true true true true true
+  mkFacts true true ex_d224 ex_d256 ex_d384 ex_d512 true true 50 200 true true
           (dns_in [str "host.example"%string]) (Ok [str "node-a"%string; str "node-b"%string]).
+Definition ex_now : N := 100.
 Definition ex_cfg : config := mkCfg VERIFY_SERVER HOST_RECEPTOR (str "node-b"%string) [repeat 9 32; ex_d512].
 
 Example verify_nonvacuous :
-  verify ex_cfg ex_facts = Accept
-  /\ verify (mkCfg VERIFY_CLIENT HOST_DNS (str "host.example"%string) [ex_d224]) ex_facts = Accept
-  /\ verify (mkCfg VERIFY_SERVER HOST_RECEPTOR (str "node-c"%string) []) ex_facts = Refuse R_NAME
-  /\ verify (mkCfg VERIFY_SERVER HOST_DNS (str "other.example"%string) []) ex_facts = Refuse R_X509
-  /\ verify (mkCfg 0 HOST_RECEPTOR (str "node-a"%string) []) ex_facts = Refuse R_VTYPE
-  /\ verify (mkCfg VERIFY_SERVER HOST_RECEPTOR (str "node-a"%string) [repeat 9 32]) ex_facts = Refuse R_PINMISS
-  /\ verify (mkCfg VERIFY_SERVER HOST_RECEPTOR (str "node-a"%string) [ex_d256; repeat 9 31]) ex_facts = Refuse R_PINLEN
-  /\ verify (mkCfg VERIFY_SERVER HOST_RECEPTOR (str "node-a"%string) [repeat 9 31; ex_d256]) ex_facts = Refuse R_PINLEN.
+  verify ex_cfg ex_facts ex_now = Accept
+  /\ verify (mkCfg VERIFY_CLIENT HOST_DNS (str "host.example"%string) [ex_d224]) ex_facts ex_now = Accept
+  /\ verify (mkCfg VERIFY_SERVER HOST_RECEPTOR (str "node-c"%string) []) ex_facts ex_now = Refuse R_NAME
+  /\ verify (mkCfg VERIFY_SERVER HOST_DNS (str "other.example"%string) []) ex_facts ex_now = Refuse R_X509
+  /\ verify (mkCfg 0 HOST_RECEPTOR (str "node-a"%string) []) ex_facts ex_now = Refuse R_VTYPE
+  /\ verify (mkCfg VERIFY_SERVER HOST_RECEPTOR (str "node-a"%string) [repeat 9 32]) ex_facts ex_now = Refuse R_PINMISS
+  /\ verify (mkCfg VERIFY_SERVER HOST_RECEPTOR (str "node-a"%string) [ex_d256; repeat 9 31]) ex_facts ex_now = Refuse R_PINLEN
+  /\ verify (mkCfg VERIFY_SERVER HOST_RECEPTOR (str "node-a"%string) [repeat 9 31; ex_d256]) ex_facts ex_now = Refuse R_PINLEN.
 Proof. vm_compute. repeat split; reflexivity. Qed.
 
 (* ---------- GetClientTLSConfig ---------- *)
@@ -258,44 +288,44 @@ Qed.
 
 (* a client built by GetClientTLSConfig from a verifying profile completes a handshake only with
    a server certificate the verifier accepts *)
-Theorem client_handshake_sound p expected htype tc f :
+Theorem client_handshake_sound p expected htype tc f now :
   p_skip p = false ->
   client_config (Found p) expected htype = Ok (Some tc) ->
-  client_handshake tc f = true ->
-  verify (mkCfg VERIFY_SERVER htype expected (p_pins p)) f = Accept.
+  client_handshake tc f now = true ->
+  verify (mkCfg VERIFY_SERVER htype expected (p_pins p)) f now = Accept.
 Proof.
   intros Hs Hc Hh. unfold client_config in Hc. rewrite Hs in Hc.
   assert (Hv : tc_verifier tc = Some (mkCfg VERIFY_SERVER htype expected (p_pins p))).
   { destruct (htype =? HOST_DNS); [|destruct (htype =? HOST_RECEPTOR)]; inversion Hc; reflexivity. }
   unfold client_handshake in Hh. apply andb_true_iff in Hh as [_ Hh].
   rewrite Hv in Hh. cbn [verifier_ok] in Hh.
-  destruct (verify _ f); [reflexivity|discriminate].
+  destruct (verify _ f now); [reflexivity|discriminate].
 Qed.
 
 (* in receptor-name mode nothing but the verifier decides; in DNS mode crypto/tls' own check
    (same pool, same usage, same host name) is conjoined: it never admits more *)
-Theorem client_handshake_receptor_iff p expected tc f :
+Theorem client_handshake_receptor_iff p expected tc f now :
   p_skip p = false ->
   client_config (Found p) expected HOST_RECEPTOR = Ok (Some tc) ->
-  client_handshake tc f = true <->
-  verify (mkCfg VERIFY_SERVER HOST_RECEPTOR expected (p_pins p)) f = Accept.
+  client_handshake tc f now = true <->
+  verify (mkCfg VERIFY_SERVER HOST_RECEPTOR expected (p_pins p)) f now = Accept.
 Proof.
   intros Hs Hc. unfold client_config in Hc. rewrite Hs in Hc. cbn in Hc. inversion Hc; subst tc; clear Hc.
   unfold client_handshake. cbn [tc_skip_default tc_verifier verifier_ok andb].
-  destruct (verify _ f); cbn [accepts]; split; congruence.
+  destruct (verify _ f now); cbn [accepts]; split; congruence.
 Qed.
 
 (* ---------- PrepareTLSServerConfig ---------- *)
-Theorem server_handshake_sound sp f :
+Theorem server_handshake_sound sp f now :
   (sp_require sp = true \/ sp_cas sp = true) ->
-  server_handshake (server_config sp) f = true ->
-  verify (mkCfg VERIFY_CLIENT HOST_DNS [] (sp_pins sp)) f = Accept.
+  server_handshake (server_config sp) f now = true ->
+  verify (mkCfg VERIFY_CLIENT HOST_DNS [] (sp_pins sp)) f now = Accept.
 Proof.
   intros Hm Hh. unfold server_config, server_handshake in Hh.
   destruct (sp_require sp) eqn:R; [|destruct (sp_cas sp) eqn:C; [|destruct Hm; discriminate]];
     cbn [ts_auth ts_verifiers forallb] in Hh;
     apply andb_true_iff in Hh as [_ Hh]; rewrite andb_true_r in Hh;
-    destruct (verify _ f); try reflexivity; discriminate.
+    destruct (verify _ f now); try reflexivity; discriminate.
 Qed.
 
 (* ---------- the stream listener ---------- *)
@@ -332,69 +362,69 @@ Proof. rewrite forallb_app, andb_true_iff. tauto. Qed.
 
 (* a listener that requires client certificates accepts a stream only if the client certificate
    passes the configured verification (pins included) AND names the claimed source node *)
-Theorem listener_binds_claimed_source_proof sp remote f :
+Theorem listener_binds_claimed_source_proof sp remote f now :
   sp_require sp = true ->
-  server_handshake (listener_config (server_config sp) remote) f = true ->
-  verify (mkCfg VERIFY_CLIENT HOST_DNS [] (sp_pins sp)) f = Accept /\
-  verify (name_verifier (a_node remote)) f = Accept /\
+  server_handshake (listener_config (server_config sp) remote) f now = true ->
+  verify (mkCfg VERIFY_CLIENT HOST_DNS [] (sp_pins sp)) f now = Accept /\
+  verify (name_verifier (a_node remote)) f now = Accept /\
   exists names, f_names f = Ok names /\ In (a_node remote) names.
 Proof.
   intros R Hh. unfold server_config in Hh. rewrite R in Hh.
   unfold listener_config, server_handshake in Hh. cbn [ts_auth ts_verifiers app forallb] in Hh.
   apply andb_true_iff in Hh as [_ Hh]. apply andb_true_iff in Hh as [H1 H2].
   rewrite andb_true_r in H2. unfold listener_name in H2.
-  assert (V1 : verify (mkCfg VERIFY_CLIENT HOST_DNS [] (sp_pins sp)) f = Accept)
-    by (destruct (verify _ f); [reflexivity|discriminate]).
-  assert (V2 : verify (name_verifier (a_node remote)) f = Accept)
-    by (destruct (verify (name_verifier _) f); [reflexivity|discriminate]).
+  assert (V1 : verify (mkCfg VERIFY_CLIENT HOST_DNS [] (sp_pins sp)) f now = Accept)
+    by (destruct (verify _ f now); [reflexivity|discriminate]).
+  assert (V2 : verify (name_verifier (a_node remote)) f now = Accept)
+    by (destruct (verify (name_verifier _) f now); [reflexivity|discriminate]).
   repeat split; try assumption.
   apply verify_ok_iff_proof in V2. destruct V2 as (_ & _ & _ & _ & Hn). now apply Hn.
 Qed.
 
 (* hence no node can use another node's identity: if the certificate names only [other], a dial
    claiming to come from [node] is refused *)
-Corollary listener_refuses_foreign_identity sp node service f names :
+Corollary listener_refuses_foreign_identity sp node service f names now :
   sp_require sp = true -> f_names f = Ok names -> ~ In node names ->
-  server_handshake (listener_config (server_config sp) (mkAddr node service)) f = false.
+  server_handshake (listener_config (server_config sp) (mkAddr node service)) f now = false.
 Proof.
-  intros R Hn Hni. destruct (server_handshake _ f) eqn:E; [|reflexivity].
-  destruct (listener_binds_claimed_source_proof sp _ f R E) as (_ & _ & ns & Hok & Hi).
+  intros R Hn Hni. destruct (server_handshake _ f now) eqn:E; [|reflexivity].
+  destruct (listener_binds_claimed_source_proof sp _ f now R E) as (_ & _ & ns & Hok & Hi).
   cbn [a_node] in Hi. rewrite Hn in Hok. inversion Hok; subst. contradiction.
 Qed.
 
 (* the pinned tree violates it: node "a:b" is accepted with a certificate that names only "a" *)
 Definition ex_client_facts (names : list bytes) : facts :=
-  mkFacts true true ex_d224 ex_d256 ex_d384 ex_d512 false true true false true (dns_in []) (Ok names).
+  mkFacts true true ex_d224 ex_d256 ex_d384 ex_d512 false true 50 200 false true (dns_in []) (Ok names).
 
 Theorem listener_binds_claimed_source_refuted_proof :
-  exists sp remote f names,
+  exists sp remote f names now,
     sp_require sp = true /\ f_names f = Ok names /\ ~ In (a_node remote) names /\
-    server_handshake (listener_config_pinned (server_config sp) remote) f = true.
+    server_handshake (listener_config_pinned (server_config sp) remote) f now = true.
 Proof.
   exists (mkSProfile true true []), (mkAddr (str "a:b"%string) (str "svc"%string)),
-         (ex_client_facts [str "a"%string]), [str "a"%string].
+         (ex_client_facts [str "a"%string]), [str "a"%string], ex_now.
   repeat split; try reflexivity.
   intros [H|[]]. vm_compute in H. discriminate.
 Qed.
 
 (* and it drops the pinned client certificates of the profile *)
 Theorem listener_pins_refuted_proof :
-  exists sp remote f,
+  exists sp remote f now,
     sp_require sp = true /\ sp_pins sp <> [] /\ ~ pins_ok (sp_pins sp) f /\
-    server_handshake (listener_config_pinned (server_config sp) remote) f = true.
+    server_handshake (listener_config_pinned (server_config sp) remote) f now = true.
 Proof.
   exists (mkSProfile true true [repeat 9 32]), (mkAddr (str "cli"%string) (str "svc"%string)),
-         (ex_client_facts [str "cli"%string]).
+         (ex_client_facts [str "cli"%string]), ex_now.
   repeat split; try reflexivity; try discriminate.
   intros [H|[_ [p [[Hp|[]] Hm]]]]; [discriminate|]. subst p. vm_compute in Hm. discriminate.
 Qed.
 
-Theorem listener_keeps_pins_proof sp remote f :
+Theorem listener_keeps_pins_proof sp remote f now :
   sp_require sp = true ->
-  server_handshake (listener_config (server_config sp) remote) f = true ->
+  server_handshake (listener_config (server_config sp) remote) f now = true ->
   pins_ok (sp_pins sp) f.
 Proof.
-  intros R Hh. destruct (listener_binds_claimed_source_proof sp remote f R Hh) as (V & _).
+  intros R Hh. destruct (listener_binds_claimed_source_proof sp remote f now R Hh) as (V & _).
   apply verify_ok_iff_proof in V. tauto.
 Qed.
 
@@ -402,20 +432,20 @@ Qed.
 Example listener_accepts_own_identity :
   server_handshake (listener_config (server_config (mkSProfile true true [ex_d256]))
                                     (mkAddr (str "a:b"%string) (str "svc"%string)))
-                   (ex_client_facts [str "a:b"%string]) = true
+                   (ex_client_facts [str "a:b"%string]) ex_now = true
   /\ server_handshake (listener_config_pinned (server_config (mkSProfile true true [ex_d256]))
                                     (mkAddr (str "a:b"%string) (str "svc"%string)))
-                   (ex_client_facts [str "a:b"%string]) = false.
+                   (ex_client_facts [str "a:b"%string]) ex_now = false.
 Proof. vm_compute. split; reflexivity. Qed.
 
 (* ---------- C20: issued certificates verify as exactly the requested node IDs ---------- *)
-Theorem verify_accepts_exactly_requested dns ips ids v vt r pins x f :
+Theorem verify_accepts_exactly_requested dns ips ids v vt r pins x f now :
   san_ok dns ips ids = true -> forallb utf8_valid ids = true ->
   make_san dns ips ids = Ok v ->
   f_names f = names_of_san (Some v) ->
   f_present f = true -> f_parses f = true -> role_of vt = Some r ->
-  chain_ok r f = true -> f_time_ok f = true -> eku_ok r f = true -> pins_ok pins f ->
-  (verify (mkCfg vt HOST_RECEPTOR x pins) f = Accept <-> In x ids).
+  chain_ok r f = true -> time_ok f now = true -> eku_ok r f = true -> pins_ok pins f ->
+  (verify (mkCfg vt HOST_RECEPTOR x pins) f now = Accept <-> In x ids).
 Proof.
   intros Hok Hu Hm Hn Hp Hq Hr Hc Ht He Hpins.
   cbn [names_of_san] in Hn. rewrite (san_roundtrip _ _ _ _ Hok Hu Hm) in Hn.
